@@ -471,6 +471,79 @@ theorem transformMaybeExternal_short_eq_long (n : Val) :
     ∧ externalFix [("external", .bool true), ("name", n)] = .ok [("external", .bool true), ("name", n)] := by
   simp [externalFix, Val.lookup, Val.insert]
 
+
+/-! ## idempotence of the non-recursive transformers (`canonical_idem` leaf-wise): the result of a transformer is a fixed point -/
+
+theorem transformFileMount_idem (v w : Val) (h : transformFileMount v = .ok w) : transformFileMount w = .ok w := by
+  cases v <;> simp [transformFileMount] at h <;> subst h <;> rfl
+theorem transformInclude_idem (v w : Val) (h : transformInclude v = .ok w) : transformInclude w = .ok w := by
+  cases v <;> simp [transformInclude] at h <;> subst h <;> rfl
+theorem transformUlimits_idem (v w : Val) (h : transformUlimits v = .ok w) : transformUlimits w = .ok w := by
+  cases v <;> simp [transformUlimits] at h <;> subst h <;> rfl
+theorem transformStringOrList_idem (v w : Val) (h : transformStringOrList v = .ok w) : transformStringOrList w = .ok w := by
+  cases v <;> simp [transformStringOrList] at h <;> subst h <;> rfl
+theorem transformVolumeMount_idem (ign : Bool) (v w : Val) (h : transformVolumeMount false v = .ok w) : transformVolumeMount ign w = .ok w := by
+  cases v with
+  | str s =>
+    simp only [transformVolumeMount] at h
+    split at h
+    · simp at h
+    · simp only [Out.ok.injEq] at h; subst h; rfl
+  | map m => simp [transformVolumeMount] at h; subst h; rfl
+  | _ => simp [transformVolumeMount] at h
+theorem transformDeviceMapping_idem (ign : Bool) (v w : Val) (h : transformDeviceMapping false v = .ok w) : transformDeviceMapping ign w = .ok w := by
+  cases v with
+  | str s =>
+    simp only [transformDeviceMapping] at h
+    split at h <;> first | (simp only [Out.ok.injEq] at h; subst h; rfl) | simp at h
+  | map m => simp [transformDeviceMapping] at h; subst h; rfl
+  | _ => simp [transformDeviceMapping] at h
+theorem transformSSH_idem (v w : Val) (h : transformSSH v = .ok w) : transformSSH w = .ok w := by
+  cases v with
+  | seq l =>
+    simp only [transformSSH] at h
+    split at h <;> first | (simp only [Out.ok.injEq] at h; subst h; rfl) | simp at h
+  | map m => simp [transformSSH] at h; subst h; rfl
+  | _ => simp [transformSSH] at h
+theorem transformServiceNetworks_idem (v w : Val) (h : transformServiceNetworks v = .ok w) : transformServiceNetworks w = .ok w := by
+  cases v with
+  | seq l =>
+    simp only [transformServiceNetworks] at h
+    split at h <;> first | (simp only [Out.ok.injEq] at h; subst h; rfl) | simp at h
+  | _ => simp [transformServiceNetworks] at h <;> subst h <;> rfl
+theorem transformKeyValue_idem (v w : Val) (h : transformKeyValue false v = .ok w) : transformKeyValue false w = .ok w := by
+  cases v with
+  | seq l =>
+    simp only [transformKeyValue] at h
+    split at h
+    · rename_i heq; exact absurd heq (kvList_false_ne_none _ _)
+    all_goals first | (simp only [Out.ok.injEq] at h; subst h; rfl) | simp at h
+  | map m => simp [transformKeyValue] at h; subst h; rfl
+  | _ => simp [transformKeyValue] at h
+
+theorem transformEnvFile_idem (v w : Val) (h : transformEnvFile v = .ok w) : transformEnvFile w = .ok w := by
+  cases v with
+  | str s => simp [transformEnvFile] at h; subst h; simp [transformEnvFile, envFileValue_idem]
+  | seq l => simp [transformEnvFile] at h; subst h; simp [transformEnvFile, envFileValue_idem]
+  | _ => simp [transformEnvFile] at h
+/-- the ports transformer is idempotent: its result is a list of mappings, which it leaves unchanged -/
+theorem transformPorts_idem (ign ign' : Bool) (v w : Val) (h : transformPorts ign v = .ok w) (hw : w ≠ v) :
+    transformPorts ign' w = .ok w := by
+  cases v with
+  | seq l =>
+    simp only [transformPorts] at h
+    split at h
+    · simp only [Out.ok.injEq] at h; exact absurd h.symm hw
+    · rename_i r heq
+      simp only [Out.ok.injEq] at h
+      subst h
+      obtain ⟨ms, hms⟩ := allMaps_exists r (portEntries_allMaps ign l [] r (by intro x hx; simp at hx) heq)
+      rw [hms]
+      exact transformPorts_long_id ign' ms
+    · simp at h
+    · simp at h
+  | _ => simp [transformPorts] at h
+
 /-! ## the table: which transformer runs where -/
 
 theorem transformers_exclusive : TPath.PairwiseExclusive CV.Gen.transformers := by decide
